@@ -202,3 +202,16 @@ Proof.
       * right. left. exact H.
       * destruct (IH H) as [H1|H1]; [left; exact H1|right; right; exact H1].
 Qed.
+
+(* two searches with pointwise equal tests / over lists with the same members *)
+Lemma existsb_ext_pt : forall {A} (f g : A -> bool) l, (forall x, f x = g x) -> existsb f l = existsb g l.
+Proof.
+  intros A f g l H. induction l as [|x l IH]; cbn [existsb]; [reflexivity|]. rewrite H, IH. reflexivity.
+Qed.
+Lemma existsb_same_members : forall {A} (p q : A -> bool) l1 l2,
+  (forall x, In x l1 <-> In x l2) -> (forall x, p x = q x) -> existsb p l1 = existsb q l2.
+Proof.
+  intros A p q l1 l2 Hl Hp. apply Bool.eq_iff_eq_true. rewrite !existsb_exists. split.
+  - intros [x [Hx E]]. exists x. split; [apply Hl, Hx|rewrite <- Hp; exact E].
+  - intros [x [Hx E]]. exists x. split; [apply Hl, Hx|rewrite Hp; exact E].
+Qed.
